@@ -127,6 +127,14 @@ def families(n):
     for i in range(n // 2):
         t = gen.mk("not", t)
     out["nested not"] = t
+    t = ge_p(0)
+    for i in range(1, max(2, n // 4)):      # right-nested xor chain whose left operands are conjunctions that survive optimisation
+        t = gen.mk("xor", gen.mk("and", ge_p(10 * i), ne_p(10 * i + 5)), t)
+    out["right-nested xor over surviving and"] = t
+    t = names[0]
+    for i in range(1, max(2, n // 4)):      # the mirrored spine
+        t = gen.mk("xor", t, gen.mk("and", names[i], ne_p(i)))
+    out["left-nested xor over and"] = t
     t = in_p(0, 1)
     for i in range(1, n // 2):
         t = gen.mk("or" if i % 2 else "and", t, in_p(i, i + 1) if i % 3 else not_in_p(i))
@@ -259,10 +267,36 @@ def mutation_search(payload, fails):
     return n
 
 
+def _lazy_probe(fn_name, fn):
+    """build P = is_str_p | (is_list_p & all_p(lazy_p(NAME))), run the analysis function while NAME is still unbound, then bind it and call P"""
+    from predicate.standard_predicates import is_list_p, is_str_p, lazy_p
+    P = is_str_p | (is_list_p & all_p(lazy_p("c12_nested_strings")))
+    if fn is not None:
+        try:
+            fn(P)
+        except Exception:  # noqa: BLE001
+            pass
+    c12_nested_strings = P  # noqa: F841  (found by lazy_p through this frame)
+    return call(P, ["a", ["b"]]), call(P, ["a", [1]])
+
+
+def lazy_search(fails):
+    want = _lazy_probe("none", None)
+    n = 0
+    for name, fn in analysis_calls(ge_p(1)).items():
+        n += 1
+        got = _lazy_probe(name, fn)
+        if got != want:
+            fails.append({"kind": "argument answers differently after the call", "function": name,
+                          "p": 'P = is_str_p | (is_list_p & all_p(lazy_p("c12_nested_strings"))), analysed before the name is bound, then bound and called',
+                          "answers_on_['a',['b']]_and_['a',[1]]": repr(got), "answers_of_a_never_analysed_copy": repr(want)})
+    return n
+
+
 def search(payload):
     fails = []
     rows = count_search(payload, fails)
-    n = mutation_search(payload, fails)
+    n = mutation_search(payload, fails) + lazy_search(fails)
     worst = max(rows, key=lambda r: r["optimize_calls"] / max(1, r["nodes"]) ** 2)
     return {"evaluations": n + len(rows), "failures": fails[:5], "known_hits": [],
             "call_counts": rows, "worst_ratio_calls_over_n2": round(worst["optimize_calls"] / worst["nodes"] ** 2, 4),
